@@ -1,5 +1,6 @@
 SPECIFICATION Spec
 CONSTANTS
+  RichLeaves = FALSE
   MaxOps = 3
   PosOps = 1
 INVARIANTS
